@@ -331,7 +331,9 @@ pub fn run_c08_files(tier: &str, rng: &mut Rng, model: &Model, rep: &mut Report,
     for _ in 0..rounds {
         let k = 3;
         let n = rng.range(2200, 3500) as usize;
-        let recs: Vec<Vec<u8>> = (0..n).map(|i| { let l = 3 + (i % 37); gen::clean_seq(rng, l, gen::Flavor::Uniform) }).collect();
+        let mut recs: Vec<Vec<u8>> = (0..n).map(|i| { let l = 3 + (i % 37); gen::clean_seq(rng, l, gen::Flavor::Uniform) }).collect();
+        // one record with more than 2^16 windows in a single bin (narrow per-record counters)
+        recs.push(gen::clean_seq(rng, 70_000, gen::Flavor::Uniform));
         let c = CovCase { recs, alt: None, k, bin_size: 2, bin_count: 4, norm: false, delim: b" ".to_vec(), threads: 8, mem: 6.0, prev: None };
         run_one(&c, "many-records", rep);
     }
